@@ -789,6 +789,6 @@ MANIFEST = dict(
         "Necessary (and, for partition invariance, sufficient up to floating point) structural clauses of C18; delta "
         "filter values and floating-point rounding are numerical and not decided."),
     level_note="Trusted: python ast; real-number idealisation of double-precision accumulation.",
-    technique="static analysis: additive-homomorphism (monoid) effect rule, rational evaluation of the stored statistics per bessel mode, symbolic exponent-matrix derivation, forwarding completeness, partial evaluation + rank-term comparison",
+    technique="static analysis: additive-homomorphism (monoid) effect rule, rational evaluation of the stored statistics per bessel mode, symbolic exponent-matrix derivation, forwarding completeness, partial evaluation + rank-term comparison; interpretation of the return computation over exact values compared with the recursion for discounts below, at and above one",
     design_ref="DESIGN.md section 4 C18",
 )
